@@ -16,8 +16,8 @@ from billiard.einfo import RemoteTraceback
 from harness.hbase import fail, tier, Prune, ND, PART, NPART, untraced, realize, THOROUGH, NDCode, CODEMAX
 from harness import world as W
 
-NMAX = tier(3, 5)
-CMAX = tier(2, 6)
+NMAX = tier(3, 4)
+CMAX = tier(2, 4)
 K = tier(3, 5)
 KINDS = ('map', 'starmap', 'imap', 'imapu', 'apply')
 
@@ -39,15 +39,25 @@ class Fn:
 
 
 class Fn2(Fn):
-    def __call__(self, x, y):
-        return f(x, self.bad) + (y,)
+    def __call__(self, x, y=None, z=7):
+        return f(x, self.bad) + (y, z)
+
+
+def _star_args(x):
+    # argument tuples of different lengths (1, 2 or 3 positional arguments) share a chunk
+    return ((x,), (x, x + 10), (x, x + 10, x + 20))[x % 3]
+
+
+def _star_tail(x):
+    a = _star_args(x)
+    return (a[1] if len(a) > 1 else None, a[2] if len(a) > 2 else 7)
 
 
 def _seq(kind, n, bad):
     out = []
     for x in range(n):
         try:
-            out.append((True, f(x, bad) + ((x + 10,) if kind == 'starmap' else ())))
+            out.append((True, f(x, bad) + (_star_tail(x) if kind == 'starmap' else ())))
         except ValueError as e:
             out.append((False, e.args))
     return out
@@ -99,7 +109,7 @@ def _scenario(kind, n, c, p_size, bad, ev, want):
     if kind == 'map':
         h = p.map_async(Fn(bad), list(range(n)), chunksize=chunk)
     elif kind == 'starmap':
-        h = p.starmap_async(Fn2(bad), [(x, x + 10) for x in range(n)], chunksize=chunk)
+        h = p.starmap_async(Fn2(bad), [_star_args(x) for x in range(n)], chunksize=chunk)
     elif kind in ('imap', 'imapu'):
         if chunk and chunk > 1 and bad:
             raise Prune()        # with chunks, one failing item fails its whole chunk and ends the flattening generator: outside the claim
